@@ -525,15 +525,31 @@ class StubPrior:
         return np.array([self.value(t)[0] / self.value(t)[1] for t in theta])
 
 
+def dcode(v):
+    """a returned distance as the integer the objective logs (NaN = 1000000), -99 if it is neither"""
+    v = float(v)
+    if v != v:
+        return 1000000
+    return int(v) if v.is_integer() else -99
+
+
 def make_objective(a, eps):
     """integer-valued objective: eps-1, eps or eps+1 depending on the quarter-unit cell of the point."""
-    def value(theta):
+    NAN_CODE = 1000000        # a distance that is not a number is not within any cut-off: logged as a huge distance
+
+    def cell(theta):
         theta = np.asarray(theta, dtype=float).reshape(-1)
-        v = a + sum((k + 1) * int(math.floor(theta[k] * 4)) for k in range(len(theta)))
+        return a + sum((k + 1) * int(math.floor(theta[k] * 4)) for k in range(len(theta)))
+
+    def value(theta):
+        v = cell(theta)
+        if a >= 3 and v % 5 == 0:          # objectives 3, 4, ..: undefined (NaN) on a fifth of the cells
+            return NAN_CODE
         return eps - 1 + v % 3
 
     def f(theta):
-        return float(value(theta))
+        v = value(theta)
+        return float("nan") if v == NAN_CODE else float(v)
     f.value = value
     return f
 
@@ -612,7 +628,7 @@ def record_rp(sc):
                     x = got["th"][i, j]
                     k = i * n2 + j
                     ev(ev="w", via="sample", i=i + 1, x=[fxm(v) for v in x], pr=prior.value(x), dist=int(funcs[i].value(x)),
-                       dout=int(got["dist"][k]) if k < len(got["dist"]) and float(got["dist"][k]).is_integer() else -99, w=sci(got["w"][i, j]))
+                       dout=dcode(got["dist"][k]) if k < len(got["dist"]) else -99, w=sci(got["w"][i, j]))
         # the parallel path's worker function, called directly (no process pool)
         i = seed % N
         with quiet():
@@ -628,7 +644,7 @@ def record_rp(sc):
             for j in range(n2):
                 x = th_i[j]
                 ev(ev="w", via="worker", i=i + 1, x=[fxm(v) for v in x], pr=prior.value(x), dist=int(funcs[i].value(x)),
-                   dout=int(got2["dist"][j]) if j < len(got2["dist"]) and float(got2["dist"][j]).is_integer() else -99, w=sci(got2["w"][j]))
+                   dout=dcode(got2["dist"][j]) if j < len(got2["dist"]) else -99, w=sci(got2["w"][j]))
     for e in events:
         e.pop("exc", None)
     return dict(D=D, N=N, eps=eps, surr=bool(sc["surr"]), regs=sc["regs"], events=events)
@@ -655,7 +671,7 @@ def rp_scenarios(ctx):
                     pts.add(tuple(int(v) for v in x))
         pts = sorted(pts)
         rnd.shuffle(pts)
-        out.append(dict(D=D, N=N, eps=rnd.choice([0, 1, 2, 5]), eps_mode=rnd.randint(0, 1), surr=rnd.random() < 0.6, regs=regs, a=[rnd.randint(0, 2) for _k in range(N)],
+        out.append(dict(D=D, N=N, eps=rnd.choice([0, 1, 2, 5]), eps_mode=rnd.randint(0, 1), surr=rnd.random() < 0.6, regs=regs, a=[rnd.randint(0, 4) for _k in range(N)],
                         pts=[list(p) for p in pts[: (30 if ctx.quick else 60)]],
                         samples=[[rnd.randint(1, 5), rnd.randint(0, 10 ** 6)] for _s in range(2)]))
     return out
